@@ -21,6 +21,8 @@ type c01Stats struct {
 	sizeUpdates, doubleUpdates        int64
 	tableCompares, pendingBlocks      int64
 	opsSetMax, opsLimit, opsClampedBy int64
+	tablesIdentical, decoderSuperset  int64
+	supersetByCause                   map[string]int64
 }
 
 func (s *c01Stats) flush(r *verifrt.R) {
@@ -48,6 +50,11 @@ func (s *c01Stats) flush(r *verifrt.R) {
 	ev("blocks_with_change_still_pending", s.pendingBlocks)
 	ev("ops_set_max_size", s.opsSetMax)
 	ev("ops_set_limit", s.opsLimit)
+	ev("blocks_after_which_tables_identical", s.tablesIdentical)
+	ev("blocks_after_which_decoder_still_holds_entries_the_encoder_dropped", s.decoderSuperset)
+	for k, n := range s.supersetByCause {
+		ev("decoder_holds_more_because_"+k, n)
+	}
 }
 
 func c01Hex(b []byte) string {
@@ -59,7 +66,7 @@ func c01Hex(b []byte) string {
 
 // c01History runs one history and applies the C01 oracle after every block.
 func c01History(r *verifrt.R, c *verifrt.Case, cfg vuHistCfg) {
-	st := &c01Stats{}
+	st := &c01Stats{supersetByCause: map[string]int64{}}
 	defer st.flush(r)
 	h := fnv.New64a()
 	histEvict, histDynIdx := int64(0), int64(0)
@@ -155,14 +162,28 @@ func c01History(r *verifrt.R, c *verifrt.Case, cfg vuHistCfg) {
 			return fail(b, "decoder-table-differs-from-reference", "entry %d; decoder size %d max %d (%d entries), reference size %d max %d (%d entries)", d, b.Dec.dynTab.size, b.Dec.dynTab.maxSize, len(decTab), b.Ref.Size, b.Ref.MaxSize, len(b.Ref.Dyn))
 		}
 		if !b.StillPending {
+			// The encoder addresses entries from the newest end, so what every continuation of
+			// the history needs is: the encoder's table is the newest part of the decoder's, and
+			// the decoder's limit is not below the encoder's. (A decoder that still holds older
+			// entries the encoder has dropped decodes every future block identically; an
+			// encoder entry the decoder lacks, or a smaller decoder limit, breaks some
+			// continuation.)
 			encTab := vuDynEntries(&b.Enc.dynTab)
-			if d := vuFirstDiff(encTab, decTab); d >= 0 || b.Enc.dynTab.maxSize != b.Dec.dynTab.maxSize {
-				key := "encoder-decoder-tables-differ"
+			if len(encTab) > len(decTab) || vuFirstDiff(encTab, decTab[:len(encTab)]) >= 0 || b.Dec.dynTab.maxSize < b.Enc.dynTab.maxSize {
+				key := "encoder-table-not-newest-part-of-decoder-table"
 				if cause != "" {
 					key = "desync:" + cause
 				}
-				return fail(b, key, "after the block the tables differ at entry %d: encoder %d entries size %d max %d, decoder %d entries size %d max %d; announced sizes %v, encoder was told max=%d min-since-last-block=%d. encoder:%s decoder:%s",
-					d, len(encTab), b.Enc.dynTab.size, b.Enc.dynTab.maxSize, len(decTab), b.Dec.dynTab.size, b.Dec.dynTab.maxSize, announced, b.ModelMax, b.ModelMin, vuFieldsStr(encTab, 6), vuFieldsStr(decTab, 6))
+				return fail(b, key, "after the block: encoder %d entries size %d max %d, decoder %d entries size %d max %d; announced sizes %v, encoder was told max=%d min-since-last-block=%d. encoder:%s decoder:%s",
+					len(encTab), b.Enc.dynTab.size, b.Enc.dynTab.maxSize, len(decTab), b.Dec.dynTab.size, b.Dec.dynTab.maxSize, announced, b.ModelMax, b.ModelMin, vuFieldsStr(encTab, 6), vuFieldsStr(decTab, 6))
+			}
+			if len(decTab) == len(encTab) && b.Dec.dynTab.maxSize == b.Enc.dynTab.maxSize {
+				st.tablesIdentical++
+			} else {
+				st.decoderSuperset++
+				if cause != "" {
+					st.supersetByCause[cause]++
+				}
 			}
 			if b.Enc.dynTab.maxSize != b.ModelMax {
 				// not part of the property; it only means the harness model of the calls is off
@@ -234,7 +255,7 @@ func c01History(r *verifrt.R, c *verifrt.Case, cfg vuHistCfg) {
 func TestVerif_C01(t *testing.T) {
 	r := verifrt.Start(t, "C01")
 	defer r.Finish()
-	r.SetRule("history = 1..40 header blocks of 0..25 fields drawn from a small per-history alphabet (static-table names and pairs, custom names, empty strings, 4 KiB incompressible and Huffman-friendly values, Sensitive with p=0.1) written by one Encoder and read by one Decoder (one Write + Close per block) and by the reference decoder; between blocks 0..3 SetMaxDynamicTableSize / SetMaxDynamicTableSizeLimit calls with values from {0,1,31,32,33,64,100,4096,65536,random}; decoder allowed maximum = 2^20 or exactly the largest size the history announces. non-trivial = history with >=1 eviction and >=1 indexed reference to a dynamic-table entry; distinct by the octets on the wire")
+	r.SetRule("history = 1..40 header blocks of 0..25 fields drawn from a small per-history alphabet (static-table names and pairs, custom names, empty strings, 4 KiB incompressible and Huffman-friendly values, Sensitive with p=0.1) written by one Encoder and read by one Decoder (one Write + Close per block) and by the reference decoder; between blocks 0..3 SetMaxDynamicTableSize / SetMaxDynamicTableSizeLimit calls with values from {0,1,31,32,33,64,100,4096,65536,random}; decoder allowed maximum = 2^20 or exactly the largest size the history announces. After every block: fields identical from Decoder and reference, table invariants, decoder table == reference table, encoder table == newest part of the decoder table and decoder limit >= encoder limit. non-trivial = history with >=1 eviction and >=1 indexed reference to a dynamic-table entry; distinct by the octets on the wire")
 	r.Assume("reference decoder written from RFC 7541 (hpackref), pinned by the Appendix C examples; table invariants read white-box from Encoder.dynTab / Decoder.dynTab")
 	r.Require("ref_selfcheck_ok", 1)
 	if err := hpackref.SelfCheck(); err != nil {
@@ -246,8 +267,9 @@ func TestVerif_C01(t *testing.T) {
 	r.CasesParallel("histories", r.N(4000, 100000), 0, func(c *verifrt.Case) {
 		c01History(r, c, vuHistCfg{pSensitive: 0.1})
 	})
-	// same, restricted to size-change shapes that stay clear of the two size-update defects
-	// found on the pinned tree, so that long histories keep exercising everything else
+	// same, restricted to size-change shapes that stay clear of the size-update defect found on
+	// the pinned tree (decoder refuses the second of two leading size updates), so that long
+	// histories keep exercising everything else
 	r.CasesParallel("histories-single-change", r.N(4000, 100000), 0, func(c *verifrt.Case) {
 		c01History(r, c, vuHistCfg{pSensitive: 0.1, avoidKnown: true})
 	})
